@@ -514,7 +514,8 @@ def run_random(ctx):
         elif form in ("dict", "kwargs", "mapping", "odict", "ddict", "mproxy"):
             arg = {}
             for _ in range(n):
-                k = key() if form != "kwargs" else r.choice(["a", "b", "c", "d", "é", "k_1"])
+                # (keyword names need not be identifiers: f(**{"k y": 1}) is legal Python)
+                k = key() if form != "kwargs" or r.random() < 0.5 else r.choice(["a", "b", "c", "d", "é", "k_1"])
                 v = val()
                 if r.random() < 0.2:
                     v = [val(allow_bad=r.random() < 0.2) for _ in range(r.randint(0, 3))]
